@@ -80,6 +80,20 @@ STRENGTH.update({
  "C17-5":"serialisations and fingerprints of all keys are held while the others are produced, then parsed back",
  "C18-5":"within one call's output the message that completes the key exchange must precede the data messages of the session it opens",
  "C19-5":"letter M (malformed fragment with an instance tag below 0x100) in the pattern alphabet"})
+BEFORE.update({
+ "C01-6":"caught","C02-6":"caught","C03-6":"missed","C04-6":"engine error (the harness's set-up panicked)","C05-6":"caught","C06-6":"missed by C06 (caught by C15)","C07-6":"missed","C08-6":"caught","C09-6":"missed","C10-6":"caught",
+ "C11-6":"missed","C12-6":"caught","C13-6":"caught","C14-6":"engine error (finding did not reproduce on an isolated replay)","C15-6":"caught","C16-6":"missed","C17-6":"missed","C18-6":"caught","C19-6":"caught","C20-6":"missed"})
+STRENGTH.update({
+ "C03-6":"every data message is also read with the standard library's AES-CTR (the package's own decryption shares the defect), and one marker is longer than 256 cipher blocks",
+ "C04-6":"an honest set-up that fails (here: no session can be established when fragments carry instance tags with the top bit set) is now a finding (honest-setup-failed) instead of a crash of the checker",
+ "C06-6":"rejected inputs with BOTH instance tags foreign",
+ "C07-6":"start state with the randomness source scripted to tiny D-H exponents (short g^x)",
+ "C09-6":"NOT caught by C09: the change needs a peer that holds the session keys and announces an invalid next D-H key; C09 quantifies over histories of two honest parties. An experimental 'hostile next key' event was tried and withdrawn (its oracle could not be justified from the property's text in the time left)",
+ "C11-6":"secret pairs that differ only in letter case, trailing blank, blank vs. empty, and invalid UTF-8, WITH a question (quick used to run the case pair without one)",
+ "C14-6":"grid cases run on a copy of the sender (independent), and a new part: for every ordered pair of fragment sizes the second cut on one conversation must equal the cut of a fresh one",
+ "C16-6":"after a whitespace tag that starts nothing, a query offering every version must still be answered with the policy's best version",
+ "C17-6":"account-name alphabet extended by backslash, TAB, a control character, % and multi-byte UTF-8",
+ "C20-6":"a pair that draws from the system's randomness source in the point-granularity invariance pass"})
 rows=[]
 for d in sorted(glob.glob(os.path.join(ROOT,'seeded','C*'))):
     pid=os.path.basename(d)
